@@ -21,7 +21,13 @@ def run(ctx):
         rule="schedules = edge cover of the core AcceptDispatch configs + NEG counterexample + corpus (limits 1..4, workers "
              "1..3); at every recorded state queued+in-progress per worker (measured channel length + live service futures) "
              "is compared with the limit by TLC; non-trivial = some worker reaches its limit during the run")
+    import srvload
+    srvload.run(ctx)
 
 
 def replay(ctx, path):
+    import json as _j
+    if _j.load(open(path))["replay"].get("mode") == "e2e-load":
+        import srvload
+        return srvload.replay(ctx, path)
     srvflow.replay(ctx, path, INV)
